@@ -112,10 +112,12 @@ def jobs(prop, tier):
                     # elements at settled points depends on the clocks the clients carry through their entry
                     SE("sync_join_edge", 2, rate=0.05, kind="list"), SE("sync_sc_edge", 2, rate=0.02, kind="list"),
                     SS("sync_sim", 3, 16, 60, kind="list")] + MU(tier)
-        return MU(tier) + [BIG(2), SM("sync_basic"), SM("sync_sc"), SM("sync_3"), SM("sync_big"), SM("sync_join"), SE("sync_basic_edge", 2), SE("sync_sc_edge", 2),
-                SE("sync_3_edge", 3, rate=0.05), SS("sync_sim", 3, 600, 80),
-                SE("sync_join_edge", 2, kind="list"), SE("sync_sc_edge", 2, kind="list"), SE("sync_basic_edge", 2, kind="list"),
-                SE("sync_3_edge", 3, rate=0.05, kind="list"), SS("sync_sim", 3, 400, 80, kind="list")]
+        # (measured: with every transition of every configuration replayed for both kinds the tier took 52 minutes on a
+        # loaded machine and one shard ran into its time limit; sampled at 5-6 times the quick tier's rates)
+        return MU(tier) + [BIG(2), SM("sync_basic"), SM("sync_sc"), SM("sync_3"), SM("sync_big"), SM("sync_join"), SE("sync_basic_edge", 2, rate=0.35), SE("sync_sc_edge", 2, rate=0.3),
+                SE("sync_3_edge", 3, rate=0.02), SS("sync_sim", 3, 400, 80),
+                SE("sync_join_edge", 2, rate=0.3, kind="list"), SE("sync_sc_edge", 2, rate=0.12, kind="list"), SE("sync_basic_edge", 2, rate=0.15, kind="list"),
+                SE("sync_3_edge", 3, rate=0.01, kind="list"), SS("sync_sim", 3, 200, 80, kind="list")]
     if prop == "C06":
         if q:
             return [SE("sync_basic_edge", 2, rate=0.08), SE("sync_3_edge", 3, rate=0.004), SE("sync_faults_edge", 2, rate=0.004),
@@ -193,7 +195,7 @@ def jobs(prop, tier):
             st = dict(mode="trace", cfg="snap_store_trace", module="OrdaSnapStore.tla", tool="snapreplay", kind="list",
                       why="the writes the server made to its store are not ones the specification of snapshots and user document allows")
             rt = ([dict(st, args=["-stress", "120", "-seed", "{seed}"])] if q else
-                  [dict(st, args=["-stress", "1500", "-seed", "{seed}"]), dict(st, args=["-stress", "1500", "-seed", "{seed}3"])])
+                  [dict(st, args=["-stress", "800", "-seed", "{seed}"]), dict(st, args=["-stress", "800", "-seed", "{seed}3"])])
         if prop == "C18":
             rt = ([RT("rt_1k_edge", 0.04), RT("rt_2k_edge", 0.004), RTS(5, 40), RTM("rt_live_1k"), RTM("rt_live_2k")] if q else
                   [RT("rt_1k_edge", 1.0), RT("rt_2k_edge", 0.1), RTS(150, 60), RTM("rt_live_1k"), RTM("rt_live_2k"), RTM("rt_2k"), RTM("rt_3c"), RTM("rt_1k2")])
